@@ -462,4 +462,93 @@ theorem C10_selected_used_downstream (xs es : List ℝ) (hz : hasZero es = false
         | some .useWmean => sem xs)) := by
   rw [C10_used_downstream, (C10_selectors xs es hz ss).1, (C10_selectors xs es hz ss).2]
 
+/-! ### 12. two repeated measurements in one later calculation
+
+`k1·a + k2·b + c`, `a − b`, `a·b` propagated by the derivative method through the generated tables
+(quadrature terms, `__find_cov_terms`: `covOf`, `covYield`, the `cov != 0` test): EVERY term — the two
+quadrature terms and the covariance term `2·(ρ·σa·σb)·∂a·∂b` — reads the uncertainties in use. -/
+
+/-- the tactic block shared by the three shapes -/
+macro "downstream2_tac" : tactic => `(tactic| (
+  simp only [Expr.eval, Expr.resultSums, Expr.quadTerms, Expr.pairTerms, Expr.covTerm, Expr.diff,
+    Gen.op2, Gen.d2, Gen.quadTerm, Gen.combine, Gen.errOf, Gen.covOf, Gen.covYield, List.map_cons,
+    List.map_nil, List.append_nil]
+  simp [Num.sum]
+  congr 1
+  split
+  · rename_i h
+    rcases h with (h | h) | h <;> subst h <;> ring
+  · ring))
+
+/-- **C10 (used downstream, two sources).** `k1·a + k2·b + c` with `a = va ± ea`, `b = vb ± eb` and
+    recorded correlation factor `ρ` is `k1·va + k2·vb + c ± sqrt((k1·ea)² + (k2·eb)² + 2·(ρ·ea·eb)·k1·k2)`:
+    the covariance term is rebuilt from the SAME two uncertainties as the quadrature terms (also when
+    the `cov != 0` test skips it: the term is then 0). -/
+theorem C10_used_downstream_pair (k1 k2 c va ea vb eb rho : ℝ) :
+    downstream2 .lin k1 k2 c va ea vb eb rho =
+      (k1 * va + k2 * vb + c,
+       Real.sqrt ((k1 * ea) ^ 2 + (k2 * eb) ^ 2 + 2 * (rho * ea * eb) * k1 * k2)) := by
+  unfold downstream2 expr2 Expr.propagate
+  have hs : Expr.sources (Expr.bin Op2.add (Expr.bin Op2.add (Expr.bin Op2.mul (Expr.const k1)
+      (Expr.var 0)) (Expr.bin Op2.mul (Expr.const k2) (Expr.var 1))) (Expr.const c) : Expr ℝ)
+      = [0, 1] := by
+    simp only [Expr.sources, List.nil_append, List.append_nil]
+    rfl
+  rw [hs]
+  downstream2_tac
+
+/-- **C10 (used downstream, difference).** `a − b` is `va − vb ± sqrt(ea² + eb² − 2·ρ·ea·eb)`. -/
+theorem C10_used_downstream_sub (k1 k2 c va ea vb eb rho : ℝ) :
+    downstream2 .sub k1 k2 c va ea vb eb rho =
+      (va - vb, Real.sqrt (ea ^ 2 + eb ^ 2 - 2 * (rho * ea * eb))) := by
+  unfold downstream2 expr2 Expr.propagate
+  have hs : Expr.sources (Expr.bin Op2.sub (Expr.var 0) (Expr.var 1) : Expr ℝ) = [0, 1] := by
+    simp only [Expr.sources]; rfl
+  rw [hs]
+  downstream2_tac
+
+/-- **C10 (used downstream, product).** `a·b` is
+    `va·vb ± sqrt((vb·ea)² + (va·eb)² + 2·(ρ·ea·eb)·vb·va)`. -/
+theorem C10_used_downstream_prod (k1 k2 c va ea vb eb rho : ℝ) :
+    downstream2 .prod k1 k2 c va ea vb eb rho =
+      (va * vb, Real.sqrt ((vb * ea) ^ 2 + (va * eb) ^ 2 + 2 * (rho * ea * eb) * vb * va)) := by
+  unfold downstream2 expr2 Expr.propagate
+  have hs : Expr.sources (Expr.bin Op2.mul (Expr.var 0) (Expr.var 1) : Expr ℝ) = [0, 1] := by
+    simp only [Expr.sources]; rfl
+  rw [hs]
+  downstream2_tac
+
+/-- the statistic a selector history leaves as the uncertainty in use (`C10_selectors`) -/
+noncomputable def errInUse (xs es : List ℝ) (ss : List Sel) : ℝ :=
+  match lastErrSel ss with
+  | none | some .useSem => sem xs
+  | some .useStd => std1 xs
+  | some .usePerr => perr es
+  | some .useWmean => sem xs
+
+/-- the statistic a selector history leaves as the value in use (`C10_selectors`) -/
+noncomputable def valInUse (xs es : List ℝ) (ss : List Sel) : ℝ :=
+  if Sel.useWmean ∈ ss then wmean xs es else mean xs
+
+/-- **C10 (selectors, two sources downstream).** After ANY selector histories `ss` on `a` and `ts`
+    on `b` (all individual uncertainties non-zero), with any recorded correlation factor `ρ` (the
+    normalised sample covariance when it was inferred), `k1·a + k2·b + c` uses — in the quadrature
+    terms AND in the covariance term — the statistic of the last uncertainty-selector of each source,
+    and the statistic of the last value-selector of each source. -/
+theorem C10_selected_used_downstream_pair (xs es ys fs : List ℝ) (hz : hasZero es = false)
+    (hz' : hasZero fs = false) (ss ts : List Sel) (k1 k2 c rho : ℝ) :
+    downstream2 .lin k1 k2 c ((Rep.init xs es).run ss).value ((Rep.init xs es).run ss).error
+        ((Rep.init ys fs).run ts).value ((Rep.init ys fs).run ts).error rho =
+      (k1 * valInUse xs es ss + k2 * valInUse ys fs ts + c,
+       Real.sqrt ((k1 * errInUse xs es ss) ^ 2 + (k2 * errInUse ys fs ts) ^ 2
+          + 2 * (rho * errInUse xs es ss * errInUse ys fs ts) * k1 * k2)) := by
+  rw [C10_used_downstream_pair, (C10_selectors xs es hz ss).1, (C10_selectors xs es hz ss).2,
+    (C10_selectors ys fs hz' ts).1, (C10_selectors ys fs hz' ts).2]
+  rfl
+
+/-- non-vacuity / a concrete instance: a = 1 ± 3, b = 2 ± 4, ρ = 1/2, `a − b`: radicand
+    9 + 16 − 12 = 13 -/
+example : downstream2 .sub (0 : ℝ) 0 0 1 3 2 4 (1 / 2) = (-1, Real.sqrt 13) := by
+  rw [C10_used_downstream_sub]; norm_num
+
 end QExPy
